@@ -353,7 +353,10 @@ def gen_input(rng):
     if kind < 0.8:
         if rng.random() < 0.6:
             h = "".join(rng.choice("0123456789abcdef") for _ in range(40))
-            lines += ["commit " + h, "Author: A U Thor <a@example.com>", "Date:   Thu Jan 1 00:00:00 1970 +0000", "",
+            cl = "commit " + h
+            if rng.random() < 0.5:
+                cl = ESC + "[33m" + cl + ESC + "[m"       # as git colours it for a pager
+            lines += [cl, "Author: A U Thor <a@example.com>", "Date:   Thu Jan 1 00:00:00 1970 +0000", "",
                       "    fix " + "".join(rng.choice("0123456789abcdef") for _ in range(rng.choice([7, 10]))) + " again", ""]
             if rng.random() < 0.4:
                 lines += [" sub/a.rs | 2 +-", " 1 file changed, 1 insertion(+), 1 deletion(-)", ""]
@@ -372,8 +375,39 @@ def gen_input(rng):
                           "index 1111111..2222222 100644", f"--- a/{name}", f"+++ b/{new}"]
                 files[-1] = new
                 files.append(name)
-            else:
+            elif ev < 0.93:
                 lines += [f"diff --git a/{name} b/{name}", "old mode 100644", "new mode 100755"]
+                continue
+            elif ev < 0.96:
+                # binary sections: modified, added, and two different paths
+                b = rng.choice(["img/x.png", "sub/y.bin", "z.dat"])
+                k = rng.random()
+                if k < 0.4:
+                    lines += [f"diff --git a/{b} b/{b}", "index 1111111..2222222 100644", f"Binary files a/{b} and b/{b} differ"]
+                    files[-1] = b
+                elif k < 0.7:
+                    lines += [f"diff --git a/{b} b/{b}", "new file mode 100644", "index 0000000..2222222", f"Binary files /dev/null and b/{b} differ"]
+                    files[-1] = b
+                else:
+                    b2 = "moved/" + os.path.basename(b)
+                    lines += [f"diff --git a/{b} b/{b2}", "similarity index 90%", f"rename from {b}", f"rename to {b2}",
+                              "index 1111111..2222222 100644", f"Binary files a/{b} and b/{b2} differ"]
+                    files[-1] = b
+                    files.append(b2)
+                continue
+            elif ev < 0.98:
+                # an empty added or deleted file: no ---/+++ lines at all
+                e = rng.choice(["sub/e.txt", "empty.md", "dir/e e.txt"])
+                if rng.random() < 0.5:
+                    lines += [f"diff --git a/{e} b/{e}", "new file mode 100644", "index 0000000..e69de29"]
+                else:
+                    lines += [f"diff --git a/{e} b/{e}", "deleted file mode 100644", "index e69de29..0000000"]
+                files[-1] = e
+                continue
+            else:
+                # combined diff whose first hunk line opens a conflict region
+                lines += [f"diff --cc {name}", "index 1111111,2222222..0000000", f"--- a/{name}", f"+++ b/{name}",
+                          "@@@ -50,6 -50,6 +50,10 @@@", "++<<<<<<< HEAD", " +ours", "++=======", "+ theirs", "++>>>>>>> branch", "  tail"]
                 continue
             start = rng.randint(1, 900)
             for _ in range(rng.randint(1, 2)):
@@ -415,7 +449,9 @@ BIN_MODES = [[], ["--line-numbers"], ["--side-by-side", "--width", "120"], ["--s
              ["--navigate"], ["--hunk-header-style", "file line-number syntax"],
              ["--commit-style", "yellow", "--hunk-header-style", "file line-number syntax", "--line-numbers"],
              ["--line-numbers", "--relative-paths"], ["--side-by-side", "--relative-paths", "--width", "100"],
-             ["--color-only"], ["--diff-so-fancy"], ["--file-style", "omit", "--line-numbers"]]
+             ["--color-only"], ["--diff-so-fancy"], ["--file-style", "omit", "--line-numbers"],
+             ["--commit-style", "raw", "--commit-decoration-style", "bold yellow box ul"],
+             ["--commit-style", "raw", "--commit-decoration-style", "ul", "--line-numbers"]]
 
 
 def binary_case(ctx, rep, case):
@@ -480,6 +516,16 @@ def binary_case(ctx, rep, case):
             if path not in want_abs:
                 stat = re.match(r"\s*\S.*\|\s+\d+ ", visible(txt)) is not None
                 modeline = "(mode " in visible(txt)
+                vis = visible(txt).strip()
+                empty_shape = ("--relative-paths" in mode and bool(prefix)
+                               and any(vis.endswith(e) and (vis.startswith("added: ") or vis.startswith("removed: "))
+                                       and not os.path.normpath(os.path.join(root, e)) == path
+                                       for e in ("sub/e.txt", "empty.md", "dir/e e.txt")))
+                if empty_shape:
+                    report(rep, "wrong-target:relative-paths:empty-file-section",
+                           "an empty added/deleted file under --relative-paths is shown unrelativized and linked below the prefix twice",
+                           dict(kind="binary", row=i, url=u, text=t, **case))
+                    continue
                 report(rep, "wrong-target:diff-stat-relative-path" if stat and "--relative-paths" in mode else
                               "wrong-target:mode-change-relative-path" if modeline and "--relative-paths" in mode else
                               "wrong-target:path", "a file link does not carry the absolute path of a file of the input",
@@ -497,7 +543,8 @@ def binary_case(ctx, rep, case):
                     return
                 current = path
             elif current is not None and path != current and not case.get("multi_sided"):
-                report(rep, "wrong-target:section", "a line-number link points at another file than its section's",
+                conflict_first = any(a2.startswith("@@@") and b2.startswith("++<<<<<<<") for a2, b2 in zip(lines, lines[1:]))
+                report(rep, "wrong-target:section:conflict-first-hunk-line" if conflict_first else "wrong-target:section", "a line-number link points at another file than its section's",
                               dict(kind="binary", row=i, url=u, text=t, want=current, **case))
                 return
             if line is not None:
